@@ -250,7 +250,7 @@ where
                         if stop.load(Ordering::Relaxed) && !failed.get() {
                             return Ok(());
                         }
-                        match test(&case) {
+                        match guarded(|| test(&case)) {
                             Ok(rep) => {
                                 if !failed.get() {
                                     let h = hash_json(&case);
@@ -275,7 +275,7 @@ where
                         match e {
                             TestError::Fail(_, case) => {
                                 // re-run the minimal case to obtain the structured failure
-                                let failure = match test(&case) {
+                                let failure = match guarded(|| test(&case)) {
                                     Err(f) => f,
                                     Ok(_) => Failure::new("flaky", "failure to reproduce on the shrunk case", "passed"),
                                 };
@@ -332,7 +332,7 @@ where
                         let end = (start + 256).min(cases.len() as u64);
                         for i in start..end {
                             let case = &cases[i as usize];
-                            match test(case) {
+                            match guarded(|| test(case)) {
                                 Ok(rep) => {
                                     agg.merge_case(hash_json(case), &rep, || serde_json::to_value(case).unwrap_or(Value::Null));
                                 }
@@ -401,4 +401,38 @@ pub fn block_on<F: std::future::Future>(f: F) -> F::Output {
             .expect("runtime");
     }
     RT.with(|rt| rt.block_on(f))
+}
+
+thread_local! {
+    static LAST_PANIC: std::cell::RefCell<Option<String>> = const { std::cell::RefCell::new(None) };
+}
+
+/// install a panic hook that records the message (and location) instead of printing it
+pub fn install_panic_hook() {
+    std::panic::set_hook(Box::new(|info| {
+        let msg = if let Some(s) = info.payload().downcast_ref::<&str>() {
+            (*s).to_owned()
+        } else if let Some(s) = info.payload().downcast_ref::<String>() {
+            s.clone()
+        } else {
+            "panic".to_owned()
+        };
+        let loc = info.location().map(|l| format!("{}:{}", l.file(), l.line())).unwrap_or_default();
+        LAST_PANIC.with(|p| *p.borrow_mut() = Some(format!("{msg} at {loc}")));
+        if std::env::var("VERIF_SHOW_PANICS").is_ok() {
+            eprintln!("panic: {msg} at {loc}");
+        }
+    }));
+}
+
+/// run a case; a panic (of the code under test or of the harness) becomes a failure with obs "panic"
+pub fn guarded<F: FnOnce() -> Result<CaseReport, Failure>>(f: F) -> Result<CaseReport, Failure> {
+    match std::panic::catch_unwind(std::panic::AssertUnwindSafe(f)) {
+        Ok(r) => r,
+        Err(_) => {
+            let msg = LAST_PANIC.with(|p| p.borrow_mut().take()).unwrap_or_else(|| "panic".to_owned());
+            let in_repo = msg.contains("/repo/");
+            Err(Failure::new("panic", "no panic", &msg).sig(serde_json::json!({"obs": "panic", "in_code_under_test": in_repo, "message": msg})))
+        }
+    }
 }
